@@ -25,7 +25,7 @@ func init() {
 			return evid.Spec{ID: "C12", Level: "exploration", Exhaustive: true,
 				Rule: "plane 1 (direct call of the log-backed accounter with a recording sink and Response): every flag octet x seq{1,3,5} x enum profiles; plane 2: every 4-tuple of content tokens " +
 					"{plain,%,%s%d,100%,%!v(,\",\\,\\n,\\x00,\\x7f,'a b',<&>,255x%, literal \\u003c / \\u0026\\u003e / \\\\n\\\" / \\u00e9 / &lt;} in user/port/rem_addr/argument, argument counts {0,1,2,255}; plane 3 (full reference server over the scripted network): " +
-					"all arrival orders of length <= 3 over {start,stop,watchdog@1,watchdog-update@3,bad-flags,undecodable} x {same,different} session ids x users {with accounter, unknown, without accounter}, " +
+					"all arrival orders of length <= 3 over {start,stop,watchdog@1,watchdog-update@3,bad-flags,undecodable} x {fresh session id, the previous event's session id with the next client sequence number} x users {with accounter, via group, unknown, without accounter}, " +
 					"checking that the sink call precedes the reply's write on the global event clock; plane 4 (engine E2): two connections sending accounting records concurrently under the controlled scheduler with statement-level points in the accounter, every schedule with <= 1 (quick) / 2 (thorough) deviations. Oracle: a SUCCESS reply implies exactly one sink call whose rendered line (format and arguments as log.Logger would print them) " +
 					"JSON-decodes to exactly the request's fields; undecodable / stop+watchdog / unknown user / no accounter are answered ERROR. distinct_nontrivial = distinct requests answered SUCCESS (by content hash)",
 				Assumptions: []string{"the sink is rendered with fmt.Sprintf(format, args...), which is what log.Logger.Printf does"}}
@@ -54,6 +54,8 @@ type c12Ev struct {
 	Kind string `json:"kind"` // start stop wd wdu badflags junk
 	Sid  int    `json:"sid"`
 	User string `json:"user"`
+	// Follow: the request re-uses the previous event's session id with the next client sequence number
+	Follow bool `json:"follow,omitempty"`
 }
 
 // recorded accounting line, as decoded from JSON
@@ -251,9 +253,9 @@ func c12Server(c *Ctx, job *int) {
 	users := []string{"acct", "viagroup", "noacct", "nobody"}
 	var alpha []c12Ev
 	for _, k := range kinds {
-		for sid := 0; sid < 2; sid++ {
+		for _, follow := range []bool{false, true} {
 			for _, u := range users {
-				alpha = append(alpha, c12Ev{Kind: k, Sid: sid, User: u})
+				alpha = append(alpha, c12Ev{Kind: k, User: u, Follow: follow})
 			}
 		}
 	}
@@ -284,17 +286,22 @@ func c12History(c *Ctx, rw *rworld, hist []c12Ev) {
 			conn.FeedEOF()
 		}
 	}()
-	seqOf := map[int]int{}
+	lastSess, lastSeq := uint32(0), 0
 	fail := func(kind, what string) {
 		c.R.ViolateMin("server/"+kind, fmt.Sprintf("%s; history %+v", what, hist), c12Case{Hist: hist}, len(hist))
 	}
 	for i, e := range hist {
-		// each event is a complete single-packet accounting session, except wdu which must arrive at seq >= 3
-		seq := 1
+		// each event is a complete single-packet accounting session (wdu must arrive at seq >= 3); a follow event re-uses
+		// the previous event's session id with the next client sequence number, which the server - having finished
+		// that session with its reply - must treat like any other first packet
+		seq, sess := 1, uint32(0xacc0+16*i)
 		if e.Kind == "wdu" {
 			seq = 3
 		}
-		_ = seqOf
+		if e.Follow && i > 0 {
+			seq, sess = lastSeq+2, lastSess
+		}
+		lastSess, lastSeq = sess, seq
 		m := ref.NewMsg()
 		m.N["authen_method"], m.N["priv_lvl"], m.N["authen_type"], m.N["authen_service"] = 6, 1, 1, 1
 		m.S["user"], m.S["port"], m.S["rem_addr"] = []byte(e.User), []byte("tty%d"), []byte("10.9.9.9")
@@ -316,7 +323,7 @@ func c12History(c *Ctx, rw *rworld, hist []c12Ev) {
 			body = []byte{2, 6, 1, 1, 1, 0, 0, 0, 0, 9, 9} // consistent lengths, trailing bytes, decodes? keep it undecodable: bad enum
 			body[1] = 0x77
 		}
-		h := ref.Header{Version: 0xc0, Type: 3, Seq: byte(seq), Session: uint32(0xacc0 + e.Sid + 16*i)}
+		h := ref.Header{Version: 0xc0, Type: 3, Seq: byte(seq), Session: sess}
 		rw.Sink.take()
 		t0 := rw.W.Clock.Now()
 		closed, err := rw.W.Deliver(conn, ref.Packet(h, []byte("acct-key"), body))
